@@ -94,6 +94,12 @@ def _install_fake_random():
     return _FAKE
 
 
+def _restore_random():
+    _, _, _, propagation, _ = _lib()
+    if propagation.random is _FAKE:
+        propagation.random = _FAKE.real
+
+
 # =============================================================================== lattices / Hamiltonian
 @lru_cache(maxsize=None)
 def lattice(name):
@@ -585,7 +591,7 @@ def run_population(case):
     O0 = ref.overlap(phi[0][None], phi[1][None])[0]
     e = _relmax(np.asarray(pd["overlaps"]), O0, abs(O0)).max()
     if not e <= TOL:
-        viol.append(("%s.init_prop_data/%s:overlaps" % (pname, kind), dict(relerr=float(e))))
+        viol.append(("%s.init_prop_data:overlaps" % pname, dict(relerr=float(e), trial=kind)))
     if "greens" in pd:
         Gref = ref.green(phi[0][None], phi[1][None])[0]
         e = np.abs(np.asarray(pd["greens"]) - Gref[None]).max() / max(1.0, np.abs(Gref).max())
@@ -644,8 +650,8 @@ def run_population(case):
             is_probe = depth[k] >= 0
             only_probes = not (cmp_ok[:L] & ~(err[:L] <= TOL)).any()
             viol.append(("%s:%s-differ-from-reference" % (base, nm),
-                         dict(only_probes_fail__selection_probability_off=bool(only_probes and nm == "walkers"), walker=k, kind_of_walker="probe" if is_probe else "leaf", probe_depth=int(depth[k]),
-                              probe_side=int(sign[k]), forced_bits=bits[k].tolist(), chosen_ref=R["chosen"][k].tolist(),
+                         dict(only_probes_fail__selection_probability_off=bool(only_probes and nm == "walkers"), walker=k,
+                              kind_of_walker="probe" if is_probe else "leaf", probe_depth=int(depth[k]), probe_side=int(sign[k]), forced_bits=bits[k].tolist(), chosen_ref=R["chosen"][k].tolist(),
                               uniforms=R["u"][k].tolist(), relerr=float(err[k]), n_bad=int(bad.size), n_compared=int(cmp_ok.sum()),
                               trial=kind, impl=dict(weight=float(Iw[k]), overlap=float(IO[k])),
                               ref=dict(weight=float(R["w"][k]), overlap=float(R["O"][k])))))
@@ -657,7 +663,6 @@ def run_population(case):
         viol.append(("%s:stored-overlap-not-overlap-of-returned-walker" % base, dict(walker=int(bad[0]), relerr=float(e_coh[bad[0]]))))
 
     # --- the exact expectation over all field configurations
-    leaves = np.arange(L)
     free = not (R["active"][:L].any() or R["dead"][:L].any() or R["ambiguous"][:L].any() or R["clipped"][:L].any())
     info = dict(W=W, L=L, n_probe=int(W - L), n_probe_ok=int((R["probe_ok"] & (depth >= 0)).sum()),
                 n_dead=int(R["dead"].sum()), n_active=int(R["active"].sum()), n_ambiguous=int(R["ambiguous"].sum()),
@@ -712,7 +717,7 @@ def tree_cases(cfg):
     for il, lat in enumerate(LATS[n]):
         for iu, U in enumerate(cfg["Us"]):
             for idt, dt in enumerate(cfg["dts"]):
-                for idn, density in enumerate(["uniform", "nonuniform"]):
+                for idn, density in enumerate(["nonuniform", "uniform"]):
                     if full and density == "nonuniform":
                         continue  # a full band has density 2 on every site whatever the orbitals
                     if density == "uniform" and not uni:
@@ -735,6 +740,8 @@ def nn_cases(cfg):
                     for idn, density in enumerate(["nonuniform", "uniform"]):
                         if cfg["na"] == n and cfg["nb"] == n and density == "nonuniform":
                             continue
+                        if density == "uniform" and not has_uniform(n, cfg["na"], cfg["nb"]):
+                            continue
                         for iw, walker in enumerate(cfg["walkers"]):
                             for pname in ("propagator_cpmc_nn", "propagator_cpmc_nn_slow"):
                                 out.append(dict(cfg, fam="nn", lat=lat, U=U, u1=u1, dt=dt, density=density, walker=walker,
@@ -748,8 +755,18 @@ def _case_key(c):
 
 def job_paths(cfg):
     """Worker for the 'tree' and 'nn' families: all cases of one static configuration."""
+    try:
+        return _job_paths(cfg)
+    finally:
+        _restore_random()
+
+
+def _job_paths(cfg):
     res = Result()
     cases = tree_cases(cfg) if cfg["fam"] == "tree" else nn_cases(cfg)
+    if not cfg.get("probes", True):
+        res.note("quick tier, 3-site neighbour-interaction family: all 2^(n+4*bonds) forced paths but no probability probes "
+                 "(probes for this family run on 2 sites, and on 3 sites in the thorough tier)")
     root_cache = {}
     store = {}
     for case in cases:
@@ -1059,11 +1076,15 @@ def make_jobs(tier, seed):
                 jobs.append(("paths", dict(fam="tree", n=n, na=na, nb=nb, trial=kind, seed=seed, Us=[4.0, 1.0, 8.0], dts=[0.1, 0.01])))
     # neighbour-interaction propagators with the virtual RNG
     for n in (2, 3):
-        fl = fillings(n, tier) if (thorough or n == 2) else [(2, 1)]
+        if n == 2:
+            fl = fillings(n, tier)
+        else:
+            fl = [(1, 1), (2, 1), (2, 2), (3, 2), (1, 2)] if thorough else [(2, 1)]
         for (na, nb) in fl:
             for kind in ("uhf_cpmc", "ghf_cpmc"):
                 jobs.append(("paths", dict(fam="nn", n=n, na=na, nb=nb, trial=kind, seed=seed,
-                                           Us=[4.0] if not thorough else [4.0, 1.0], dts=[0.1] if not thorough else [0.1, 0.01],
+                                           Us=[4.0, 1.0] if (thorough and n == 2) else [4.0],
+                                           dts=[0.1, 0.01] if thorough else [0.1],
                                            walkers=["near"] if (n == 3 and not thorough) else ["near", "far"],
                                            probes=(thorough or n == 2))))
     return jobs
@@ -1143,6 +1164,13 @@ def run(ctx):
 
 def replay(case):
     """Plain driver: re-execute the one recorded case (one population, or one pair of the fast update)."""
+    try:
+        return _replay(case)
+    finally:
+        _restore_random()
+
+
+def _replay(case):
     case = dict(case)
     for k in ("n", "na", "nb", "seed"):
         case[k] = int(case[k])
